@@ -66,7 +66,7 @@ Lemma replace_input_atomic_refuted_lemma :
     rs_exit r = Some 0 /\ c11_safe (c11_dir_of r orig (concat chunks) 1 2 3) = false /\
     c11_dir_of r orig (concat chunks) 1 2 3 = mk_dirobs ClOther ClAbsent ClAbsent.
 Proof.
-  exists (mk_env 4096 (fun n => if Nat.eqb n 2 then FaFull else FaNone) None 2 c10_unrepaired),
+  exists (mk_env 4096 (fun n => if Nat.eqb n 2 then FaFull else FaNone) None 2 c10_unrepaired 0 None),
          [[37; 80; 68; 70]%N; [10]%N], [111; 114; 105; 103]%N.
   repeat split; vm_compute; reflexivity.
 Qed.
@@ -112,6 +112,20 @@ Proof.
   intros Hm. unfold c10_pl_finish. apply c10_kp_bind; [apply c10_kp_stream_op; auto|]. intros ok w1 H1.
   destruct (ck_finish (en_ck en) && (negb ok || c10_ferror w1 name)); exact H1.
 Qed.
+Lemma c10_kp_pop_finish_n en name m : m <> name -> forall n w, c10_at (c10_world_of (c10_pop_finish_n n en name w)) m = c10_at w m.
+Proof.
+  intros Hm. induction n as [|k IH]; intros w; simpl; [reflexivity|].
+  apply c10_kp_bind.
+  - unfold c10_pop_finish. apply c10_kp_bind; [apply c10_kp_stream_op; auto|]. intros ok w1 H1.
+    destruct (ck_finish (en_ck en) && (negb ok || c10_ferror w1 name)); [destruct (ck_popper (en_ck en))|]; exact H1.
+  - intros _ w1 H1. rewrite IH. exact H1.
+Qed.
+Lemma c10_kp_with_pops en name r m :
+  m <> name -> c10_at (c10_world_of (c10_with_pops en name r)) m = c10_at (c10_world_of r) m.
+Proof.
+  intros Hm. destruct r as [[] w|e w|w]; simpl; [apply c10_kp_pop_finish_n; auto| |reflexivity].
+  pose proof (c10_kp_pop_finish_n en name m Hm (en_md5_pops en) w) as H. destruct (c10_pop_finish_n _ en name w); exact H.
+Qed.
 Lemma c10_kp_fclose en name w m : m <> name -> c10_at (c10_world_of (c10_fclose en name w)) m = c10_at w m.
 Proof. intros Hm. apply c10_kp_stream_op; auto. Qed.
 Lemma c10_kp_dtor_close {A} en name (r : c10_res A) m :
@@ -125,7 +139,7 @@ Lemma c10_kp_writer_file en name chunks w m :
 Proof.
   intros Hm. unfold c10_writer_file. apply c10_kp_bind; [apply c10_kp_fopen; auto|]. intros ok w1 H1.
   destruct ok; simpl; [|exact H1]. rewrite c10_kp_dtor_close by auto.
-  apply c10_kp_bind; [rewrite c10_kp_pl_write_chunks by auto; exact H1|]. intros _ w2 H2.
+  apply c10_kp_bind; [rewrite c10_kp_with_pops by auto; rewrite c10_kp_pl_write_chunks by auto; exact H1|]. intros _ w2 H2.
   apply c10_kp_bind; [rewrite c10_kp_pl_finish by auto; exact H2|]. intros _ w3 H3.
   apply c10_kp_bind; [rewrite c10_kp_fclose by auto; exact H3|]. intros okc w4 H4.
   destruct (ck_wclose (en_ck en) && negb okc); exact H4.
@@ -278,4 +292,19 @@ Proof.
       destruct (c10_unlink en backup w3) as [ok3 w4|e4 w4|w4] eqn:Hu; simpl in *; try discriminate.
       exfalso. unfold c10_unlink in Hu. simpl in Hu. destruct (c10_is_killb _); [discriminate|].
       destruct (c10_path_fails _); [discriminate|]. destruct (c10_is_killa _); discriminate.
+Qed.
+
+(* /repo at c4309d60 (D2 repaired, Popper destructor not) with --deterministic-id: the device fills up while the temporary
+   file is written; the first finish() that notices is the one inside the destructor: std::terminate.  The directory is
+   safe (the original is untouched, a partial temporary file is left behind) but the exit status is 134, not 2. *)
+Lemma replace_input_terminate_refuted_lemma :
+  exists en chunks orig,
+    en_ck en = c10_repaired_d2 /\
+    let r := c10_run en false false (ScReplace 1 2 3 chunks) orig in
+    c10_exit_status r = Some 134 /\ c10_has_err (cw_diag (rs_world r)) = false /\
+    c11_dir_of r orig (concat chunks) 1 2 3 = mk_dirobs ClOrig ClAbsent ClOther.
+Proof.
+  exists (mk_env 4096 (fun n => if Nat.eqb n 2 then FaFull else FaNone) None 2 c10_repaired_d2 1 None),
+         [[37; 80; 68; 70]%N; [10]%N], [111; 114; 105; 103]%N.
+  repeat split; vm_compute; reflexivity.
 Qed.
